@@ -29,6 +29,7 @@ type tableMutation struct {
 
 // rootedAtHolderR reports whether e is a selector/call chain rooted at <x>.r where x is a *RIBHolder.
 func rootedAtHolderR(info *types.Info, e ast.Expr) bool {
+	hops := 0
 	for {
 		e = ast.Unparen(e)
 		switch x := e.(type) {
@@ -49,6 +50,24 @@ func rootedAtHolderR(info *types.Info, e ast.Expr) bool {
 			e = x.X
 		case *ast.StarExpr:
 			e = x.X
+		case *ast.Ident:
+			// a local declared once as a part of the holder's RIB (afts := r.r.GetAfts())
+			v, ok := info.ObjectOf(x).(*types.Var)
+			if !ok || v.IsField() || gProg == nil {
+				return false
+			}
+			fd := gProg.enclosingFuncDecl(x.Pos())
+			if fd == nil || fd.Body == nil {
+				return false
+			}
+			def := soleDefinition(info, fd, v)
+			if def == nil {
+				return false
+			}
+			if hops++; hops > 4 {
+				return false
+			}
+			e = def
 		default:
 			return false
 		}
